@@ -47,6 +47,8 @@ type Profile struct {
 	Nested float64
 	// EventDriven: run the convergence phase in E mode (events, requeues and error retries only)
 	EventDriven bool
+	// Overrides: weight of node override annotation / ExtendedDaemonsetSetting actions (0 = none exist)
+	Overrides float64
 	// CanarySteady: before the end, hold a running manual canary open and judge its steady state (C04)
 	CanarySteady bool
 }
@@ -229,6 +231,9 @@ func (e *Sim) Run(ctx *core.Ctx, idx int) {
 		refs = append(refs, edsRef{ns, name})
 	}
 	mk("ns1", "foo")
+	if e.P.Overrides > 0 {
+		w.overridesSetup(r, "ns1", "foo")
+	}
 	if e.P.MultiEDS {
 		switch r.Intn(3) {
 		case 0:
@@ -433,6 +438,7 @@ func (e *Sim) actionFrom(w *World, r *rand.Rand, ns, name string, sh shape, edit
 			cmds := []string{"canary-pause", "canary-unpause", "canary-validate", "canary-fail", "pause-rolling-update", "unpause-rolling-update", "freeze-rollout", "unfreeze-rollout"}
 			_ = w.Kubectl(cmds[r.Intn(len(cmds))], ns, name)
 		}},
+		{p.Overrides, func() { w.overridesAction(r, ns, name) }},
 		{p.Churn, func() {
 			switch r.Intn(5) {
 			case 0:
